@@ -12,6 +12,7 @@ import SqlglotModel.Proofs.Str
 import SqlglotModel.Proofs.StrFast
 import SqlglotModel.Proofs.Comment
 import SqlglotModel.Proofs.StrLex
+import SqlglotModel.Proofs.StrDerive
 import SqlglotModel.Generated.C04
 
 namespace SqlglotModel.Properties.C04
@@ -341,6 +342,74 @@ theorem generated_shapes :
     identifierReplaceShape = true ∧ identifierEscapeDoubles = true ∧ escapeStrReplaceLast = true
     ∧ maybeCommentPlainForm = true ∧ maybeCommentConstants = [" ", "*/", "/*"]
     ∧ dialects ≠ [] := by
+  decide +kernel
+
+/-! ## The metaclass derivation of the escape tables -/
+
+/-- Whatever the class-body inputs (STRING_ESCAPES, BYTE_STRING_ESCAPES, UNESCAPED_SEQUENCES) and the module default are,
+    the ESCAPED_SEQUENCES the `_Dialect` metaclass derives is an inverse of the UNESCAPED_SEQUENCES it derives: what the
+    generator writes for `ch` is read back as `ch` by rule 1 of `_extract_string` (condition w4 of `wf`).  The only
+    hypotheses are that the two input dicts are dicts (no key twice). -/
+theorem derived_inverse_pairs (dflt : List (Seq2 × Char)) (printable : Char → Bool) (b : EscBody)
+    (h1 : keysNodup dflt = true) (h2 : keysNodup b.unescBody = true) (ch : Char) (ab : Seq2)
+    (h : lookup (deriveEsc dflt printable b).escaped ch = some ab) :
+    lookup (deriveEsc dflt printable b).unesc ab = some ch := by
+  have hn : keysNodup (deriveEsc dflt printable b).unesc = true := by
+    simp only [deriveEsc]
+    split
+    · exact keysNodup_dictMerge dflt b.unescBody h1
+    · exact h2
+  have hm := lookup_mem _ ch ab h
+  have := dictInvertFrom_mem (keepEscaped printable) (deriveEsc dflt printable b).unesc
+    (deriveEsc dflt printable b).unesc [] (fun p hp => hp) (by intro q hq; simp at hq) (ch, ab) hm
+  exact keysNodup_mem_lookup _ hn ab ch this.1
+
+/-- … and it only ever escapes values that are not printable, or the backslash (the filter that keeps Snowflake's
+    `\a -> a` from turning every `a` into `\a`). -/
+theorem derived_printable_filter (dflt : List (Seq2 × Char)) (printable : Char → Bool) (b : EscBody) (ch : Char) (ab : Seq2)
+    (h : lookup (deriveEsc dflt printable b).escaped ch = some ab) : printable ch = false ∨ ch = '\\' := by
+  have hm := lookup_mem _ ch ab h
+  have := (dictInvertFrom_mem (keepEscaped printable) (deriveEsc dflt printable b).unesc
+    (deriveEsc dflt printable b).unesc [] (fun p hp => hp) (by intro q hq; simp at hq) (ch, ab) hm).2
+  simpa [keepEscaped] using this
+
+/-- a default sequence the class body does not override survives the merge whenever the backslash is an escape -/
+theorem derived_default_kept (dflt : List (Seq2 × Char)) (printable : Char → Bool) (b : EscBody) (ab : Seq2)
+    (hs : b.strEsc.contains '\\' = true ∨ b.byteEsc.contains '\\' = true)
+    (hb : ∀ p ∈ b.unescBody, (p.1 == ab) = false) :
+    lookup (deriveEsc dflt printable b).unesc ab = lookup dflt ab := by
+  have : (b.strEsc.contains '\\' || b.byteEsc.contains '\\') = true := by
+    rcases hs with h | h <;> rw [h] <;> simp
+  simp only [deriveEsc, this, if_true]
+  exact lookup_dictMerge_absent dflt b.unescBody ab hb
+
+/-- consequence for the pairings the round-trip theorems are about: a pairing whose generator table and tokenizer table
+    are the derived tables of ONE class satisfies the inverse-pair part of `wf` by construction -/
+theorem derived_wf_inverse_condition (dflt : List (Seq2 × Char)) (printable : Char → Bool) (b : EscBody) (c : Cfg)
+    (h1 : keysNodup dflt = true) (h2 : keysNodup b.unescBody = true)
+    (he : c.escSeq = (deriveEsc dflt printable b).escaped) (hu : c.unesc = (deriveEsc dflt printable b).unesc) :
+    ∀ ch a b', lookup c.escSeq ch = some (a, b') → lookup c.unesc (a, b') = some ch := by
+  intro ch a b' h
+  rw [he] at h
+  rw [hu]
+  exact derived_inverse_pairs dflt printable b h1 h2 ch (a, b') h
+
+example : (deriveEsc [(('\\', 'a'), Char.ofNat 7), (('\\', '\\'), '\\')] (fun c => c == 'a' || c == '\\')
+      { strEsc := ['\\'], byteEsc := [], unescBody := [(('\\', 'a'), 'a')] }).escaped = [('\\', ('\\', '\\'))] := by
+  decide +kernel
+
+open SqlglotModel.Generated.C04 in
+/-- Every dialect class holds EXACTLY (order included) the flags and tables the model derives from its regenerated
+    class-body inputs, with `isprintable` as CPython answers it for the table values — a change to the derivation in
+    `_Dialect.__new__` breaks this theorem. -/
+theorem generated_escape_derivation :
+    (keysNodup escDefault && !escRecords.isEmpty && escRecords.all (recordOk escDefault)) = true := by
+  decide +kernel
+
+open SqlglotModel.Generated.C04 in
+/-- … and the tables inside the string pairings the round-trip theorems use are those derived tables: the generator side
+    from the generator's dialect class (Trino for Athena), the tokenizer side from the tokenizer's dialect class. -/
+theorem generated_cfg_tables_derived : (!cfgTies.isEmpty && cfgTies.all (tieOk escRecords)) = true := by
   decide +kernel
 
 /-! ### the two pairings that are not well-formed today, with concrete witnesses (snapshots of the pinned commit) -/
